@@ -44,6 +44,16 @@ pub fn gen_params(seed: u64, tier: Tier) -> P {
         cfg.periodic_announce = Some(PeriodicParams { frequency: Duration::from_millis(s.range(period, 4 * period)), num_members: NonZeroUsize::new(1).unwrap() });
     }
     let policy = Policy { renew: *s.pick(&[RenewMode::Never, RenewMode::Next]), mask: u64::MAX, var_ids: s.chance(1, 4) };
+    // one run in three: a slow network - answers arrive after the indirect-probe timer (one-way latency up to
+    // just under probe_period / 2), yet always before the next round, so nobody is suspected wrongly and the
+    // bound is unaffected
+    let (lmin, lmax) = if s.chance(1, 3) {
+        let hi = ((period - 1) / 2).saturating_sub(2).max(lmax);
+        let lo = s.range(lmin, hi);
+        (lo, s.range(lo, hi))
+    } else {
+        (lmin, lmax)
+    };
     let wc = WorldCfg { n, cfg, codec: *s.pick(&[CodecKind::Wire, CodecKind::Wire, CodecKind::Bincode, CodecKind::Postcard]), policy, hcfg: HandlerCfg::default_cfg(), net: NetCfg::clean(lmin * MS, lmax * MS), gen0: 1 };
     let start_ns: Vec<u64> = (0..n).map(|_| s.range(0, period) * MS).collect();
     // a non-empty proper subset fails
